@@ -18,6 +18,12 @@ func init() { register("C06", c06Scenarios) }
 // rpc.serverInfo call in between); a controller opens the gates one at a time in
 // every order, observing the system at each quiescent point.
 func c06Gated(n, m int, batch, info bool, optConc int, b Bounds) *Scenario {
+	return c06GatedX(n, m, batch, info, optConc, false, b)
+}
+
+// restart: the server first serves another connection that is stopped while one call executes, further
+// calls wait for a slot and a notification is queued; the judged traffic runs on the second connection.
+func c06GatedX(n, m int, batch, info bool, optConc int, restart bool, b Bounds) *Scenario {
 	var tokens []string
 	if batch {
 		tokens = []string{"[" + strings.Repeat("g", m) + "]"}
@@ -36,9 +42,12 @@ func c06Gated(n, m int, batch, info bool, optConc int, b Bounds) *Scenario {
 	if optConc != n {
 		name = fmt.Sprintf("option Concurrency=%d (effective %d) {%s}", optConc, n, tokensName(tokens))
 	}
+	if restart {
+		name += " after a restart (first connection stopped with calls executing and waiting)"
+	}
 	return &Scenario{
 		Name:   name,
-		Params: map[string]any{"limit": n, "calls": m, "batch": batch, "serverInfo": info, "option": optConc},
+		Params: map[string]any{"limit": n, "calls": m, "batch": batch, "serverInfo": info, "option": optConc, "restart": restart},
 		Bounds: b,
 		New: func() *Instance {
 			h := &seqHarness{msgs: buildSeq(tokens), gates: NewGates()}
@@ -51,8 +60,26 @@ func c06Gated(n, m int, batch, info bool, optConc int, b Bounds) *Scenario {
 				}
 			}
 			body := func() {
-				lib, peer, _ := NewPipe(PipeOpts{Name: "srv", CloseUnblocksRecv: true})
 				srv := jrpc2.NewServer(anyAssigner{h.handler()}, &jrpc2.ServerOptions{Concurrency: optConc})
+				if restart {
+					lib0, peer0, _ := NewPipe(PipeOpts{Name: "srv0", CloseUnblocksRecv: true, Quiet: true})
+					srv.Start(lib0)
+					for k := 0; k <= n; k++ {
+						peer0.Send([]byte(fmt.Sprintf(`{"jsonrpc":"2.0","id":"w%d","method":"gw%d"}`, k, k)))
+					}
+					peer0.Send([]byte(`{"jsonrpc":"2.0","method":"nw"}`))
+					vs.AwaitQuiescence()
+					vs.GoNamed("opener0", func() {
+						vs.AwaitQuiescence()
+						for k := 0; k <= n; k++ {
+							h.gates.Open(fmt.Sprintf("gw%d", k))
+						}
+					})
+					srv.Stop()
+					srv.Wait()
+					vs.Note("phase2")
+				}
+				lib, peer, _ := NewPipe(PipeOpts{Name: "srv", CloseUnblocksRecv: true})
 				srv.Start(lib)
 				vs.GoNamed("controller", func() {
 					for _, ms := range h.msgs {
@@ -87,7 +114,11 @@ func c06Gated(n, m int, batch, info bool, optConc int, b Bounds) *Scenario {
 			check := func(x *vs.Exec) []Viol {
 				v := genericRules(x, nil)
 				running, finished := 0, 0
-				for _, e := range x.Log {
+				log := x.Log
+				if i := findEv(x, 0, "phase2"); i >= 0 {
+					log = x.Log[i:] // the first connection is history, not judged traffic
+				}
+				for _, e := range log {
 					switch e.K {
 					case "h_enter":
 						running++
@@ -451,6 +482,11 @@ func c06Scenarios(tier string) []*Scenario {
 		out = append(out, c06Gated(n, 2, false, true, n, Bounds{b.P - 1, -1, 0}))
 	}
 	out = append(out, c06Cancel(true, b), c06Cancel(false, b))
+	if tier == "quick" {
+		out = append(out, c06GatedX(1, 2, false, false, 1, true, Bounds{1, 1, 0}), c06GatedX(2, 3, true, false, 2, true, Bounds{1, 1, 0}))
+	} else {
+		out = append(out, c06GatedX(1, 2, false, false, 1, true, Bounds{2, 2, 0}), c06GatedX(2, 3, true, false, 2, true, Bounds{2, 1, 0}), c06GatedX(2, 3, false, false, 2, true, Bounds{2, 1, 0}))
+	}
 	if tier == "quick" {
 		out = append(out, c06ReleaseRace(1, Bounds{2, 2, 0}), c06ReleaseRace(2, Bounds{2, 1, 0}))
 	} else {
